@@ -244,11 +244,25 @@ func (a *AnySchema) checkAndConvert(data any) (any, error) {
 	case reflect.Uint32:
 		fallthrough
 	case reflect.Uint64:
-		return intInputMapper(data, nil)
+		intValue, err := intInputMapper(data, nil)
+		if err != nil {
+			return nil, &ConstraintError{
+				Message: fmt.Sprintf("%T value cannot be represented in an 'any' type", data),
+				Cause:   err,
+			}
+		}
+		return intValue, nil
 	case reflect.Int64:
 		return asInt(data)
 	case reflect.Float32:
-		return floatInputMapper(data, nil)
+		floatValue, err := floatInputMapper(data, nil)
+		if err != nil {
+			return nil, &ConstraintError{
+				Message: fmt.Sprintf("%T value cannot be represented in an 'any' type", data),
+				Cause:   err,
+			}
+		}
+		return floatValue, nil
 	case reflect.Float64:
 		return asFloat(data)
 	case reflect.String:
